@@ -13,6 +13,7 @@ Keys are `/`-joined segment indices (`0`, `0/2`, …), `-` is the empty prefix.
   del <key> · copy <src> <dst> ow|cr · ren <src> <dst> ow|cr
   list <pre> [off=<key>] · listd <pre>
   reopen                                      cold metadata cache
+  via-b <op>                                  the op through a second, freshly opened wrapper instance over the same backend
 Answer: `<wrapper model answer> || <reference model answer>`; tokens as first-occurrence ordinals
 `T<n>` (per side), times raw `@<n>` (the harness ranks them), data as `<len>:<fnv64>`.
 -/
@@ -197,10 +198,18 @@ def stepC07 (st : St) (ws : List String) : Option (St × String) :=
                       r := aset st.r k ⟨data, .foreign st.refTok, now⟩,
                       calls := st.calls + 1, refTok := st.refTok + 1 }, "ok || ok")
   | _ =>
+      -- `via-b <op>`: through a second, freshly opened instance B over the same backend; instance A
+      -- keeps its metadata cache (possibly stale afterwards)
+      let viaB := decide (ws.head? = some "via-b")
+      let ws := if viaB then ws.drop 1 else ws
       match parseCall st.ws (wTimeOf st.w) ws, parseCall st.rs (rTimeOf st.r) ws with
       | some (cw, head), some (cr, _) =>
           let now := 3 * (st.calls + 1)
-          let (w', ow) := wStep st.w now cw
+          let (w', ow) :=
+            if viaB then
+              let r := wStep { st.w with cache := [] } now cw
+              ({ r.1 with cache := st.w.cache }, r.2)
+            else wStep st.w now cw
           let (r', or) := refStep st.r (.foreign st.refTok) now cr
           let (wside, sw) := showOut st.ws head ow
           let (rside, sr) := showOut st.rs head or
